@@ -191,13 +191,23 @@ TR_RE = re.compile(r'\{"tr":"([^"]+)"')
 
 
 def classify_crash(out):
-    """signature of a process death caused by the code under test, or None (harness problem)."""
-    if "nil pointer dereference" in out and "transactions.(*TimedTransaction).stopTimer" in out:
-        return "C18/panic/timed-nil-timer"
-    m = re.search(r"bisquitt/transactions\.(\(\*\w+\)\.\w+|\w+)", out)
-    if PANIC_RE.search(out) and m and "nil pointer dereference" in out:
-        return "C18/panic/nil-deref-in-" + re.sub(r"[^A-Za-z.]", "", m.group(1))
-    return None
+    """Signature of a process death with a Go panic trace (an observation about the code under test:
+    the harness itself never panics on a healthy tree), or None (death without a panic trace)."""
+    m = re.search(r"^(?:panic|fatal error): (.*)$", out, re.M)
+    if not m or not re.search(r"^goroutine \d+ \[", out, re.M):
+        return None
+    msg = re.sub(r"^runtime error: ", "", m.group(1).strip())
+    msg = re.sub(r"\s*\[recovered\].*$", "", msg)
+    if "nil pointer dereference" in msg:
+        kind = "nil-pointer-dereference"
+    else:
+        kind = "-".join(re.sub(r"[^A-Za-z0-9 ]", " ", msg).lower().split()[:6]) or "panic"
+    tail = out[m.start():]
+    fr = re.search(r"bisquitt/transactions\.(\(\*\w+\)\.\w+|\w+(?:\.func\d+)?)", tail)
+    frame = re.sub(r"[^A-Za-z0-9.]", "", fr.group(1)) if fr else "no-transactions-frame"
+    if kind == "nil-pointer-dereference" and frame == "TimedTransaction.stopTimer":
+        return "C18/panic/timed-nil-timer"       # (signature documented for finding F13/nil timer)
+    return "C18/panic/%s/%s" % (kind, frame)
 
 
 def execute(binary, scheds, nchunks):
@@ -209,7 +219,7 @@ def execute(binary, scheds, nchunks):
         i, chunk = ix
         sp, tp, pp = [os.path.join(sc, "tx-%s-%d" % (k, i)) for k in ("sched", "trace", "prog")]
         todo, lines, crashes = list(chunk), [], []       # lines: raw NDJSON lines (kept as text: millions in thorough)
-        for attempt in range(4):
+        for attempt in range(300):       # the driver is restarted after every crashing schedule
             if not todo:
                 break
             json.dump(todo, open(sp, "w"))
@@ -228,14 +238,14 @@ def execute(binary, scheds, nchunks):
             sig = classify_crash(out)
             ids = [s["id"] for s in todo]
             if sig is None or prog not in ids:
-                raise vlib.Inconclusive("txdrv died for a harness reason (rc=%d, at %r):\n%s" % (rc, prog, out[-3000:]))
+                raise vlib.Inconclusive("txdrv died without a panic trace (rc=%d, at %r):\n%s" % (rc, prog, out[-3000:]))
             k = ids.index(prog)
             lines += [l for l in got if not l.startswith('{"tr":"%s"' % prog)]
             crashes.append(dict(sig=sig, sched=todo[k], out=out[-2500:]))
             todo = todo[k + 1:]
         else:
             if todo:
-                raise vlib.Inconclusive("txdrv kept dying (chunk %d)" % i)
+                print("note: chunk %d: %d schedules not executed after %d driver crashes" % (i, len(todo), len(crashes)))
         return "".join(lines), crashes
 
     res = vlib.pmap(one, list(enumerate(chunks)), n=nchunks)
@@ -337,7 +347,7 @@ def instruments(tier):
         for sig, blk in race_sigs(out).items():
             viol.append(dict(sig=sig, what="data race reported by the Go race detector (%s)" % test,
                              replay=dict(instrument=test, env=env, report=blk)))
-        crash = classify_crash(out) if PANIC_RE.search(out) else None
+        crash = classify_crash(out)
         if crash:
             viol.append(dict(sig=crash, what="the process died in %s" % test,
                              replay=dict(instrument=test, env=env, output=out[-2500:])))
@@ -354,7 +364,7 @@ def explain(sig):
         ("C18/err-changed-after-done", "Err() changed after Done() was closed"),
         ("C18/retry-callback-after-done", "the retry callback was invoked after Done() was closed"),
         ("C18/done-without-finally", "Done() closed although the finally callback never ran"),
-        ("C18/panic", "nil pointer dereference in the code under test"),
+        ("C18/panic", "panic in the code under test (the process died)"),
         ("C18/race", "data race on a field the design treats as lock protected"),
         ("C19/retry-callback", "retry callback not at exactly k*RetryDelay after the last progress"),
         ("C19/no-more-retries", "ErrNoMoreRetries not at exactly (RetryCount+1)*RetryDelay after the last progress"),
